@@ -283,11 +283,11 @@ Fixpoint body_chunks (fuel : nat) (work : list N) (newformat : bool) (lentype ta
       match pktlen_decode work newformat lentype with
       | None => None
       | Some (LenDefinite n h) =>
-          if (length work <? h + N.to_nat n)%nat then None else Some (substr work h (N.to_nat n))
+          if len work <? N.of_nat h + n then None else Some (substr work h (N.to_nat n))
       | Some (LenIndeterminate n) =>
-          if (length work <? N.to_nat n)%nat then None else Some (substr work 0 (N.to_nat n))
+          if len work <? n then None else Some (substr work 0 (N.to_nat n))
       | Some (LenPartial n) =>
-          if (length work <? 1 + N.to_nat n)%nat then None
+          if len work <? 1 + n then None
           else if first && (n <? 512) then None
           else if negb (data_tag tag) then None
           else match body_chunks f (skipn (1 + N.to_nat n) work) newformat lentype tag false with
@@ -317,8 +317,8 @@ Definition body_extract (l : list N) : option (N * list N) :=
 (* Multiprecision integers (RFC 4880 3.2), strings                                                    *)
 (* ------------------------------------------------------------------------------------------------ *)
 Fixpoint be_bytes (k : nat) (n : N) : list N :=
-  match k with O => [] | S k' => be_bytes k' (n / 256) ++ [n mod 256] end.
-Definition be_value (l : list N) : N := fold_left (fun acc b => acc * 256 + b) l 0.
+  match k with O => [] | S k' => be_bytes k' (N.shiftr n 8) ++ [N.land n 255] end.
+Definition be_value (l : list N) : N := fold_left (fun acc b => N.shiftl acc 8 + b) l 0.
 
 Definition mpi_octets (n : N) : nat := N.to_nat ((N.size n + 7) / 8).
 Definition mpi_encode (n : N) : list N := be2 (N.size n) ++ be_bytes (mpi_octets n) n.
@@ -348,7 +348,7 @@ Definition string_decode (l : list N) : option (list N * nat) :=
   match pktlen_decode l true 255 with
   | Some (LenDefinite n h) =>
       if n =? 0 then None
-      else if (length l <? N.to_nat n + h)%nat then None
+      else if len l <? n + N.of_nat h then None
       else Some (substr l h (N.to_nat n), (N.to_nat n + h)%nat)
   | _ => None
   end.
